@@ -164,3 +164,18 @@ Example print_example :
   print_val (VL [VB [x0a; xff]; VN 120; VZ (-3); VS (str "foo"); VL [VB []]; VL []])
   = str "(x0aff n120 z-3 sfoo (x) ())".
 Proof. vm_compute. reflexivity. Qed.
+
+(* ---- the one function a correspondence driver calls per input line ----
+   line = "(INPUTS OBSERVED)"; result = "ok" | "MISMATCH model=<val>" | "MALFORMED" *)
+Definition check_line_with (run : val -> option val) (line : bytes) : bytes :=
+  match parse_val line with
+  | Some (VL [inp; obs]) =>
+      match run inp with
+      | Some m => if val_eqb m obs then str "ok" else str "MISMATCH model=" ++ print_val m
+      | None => str "MALFORMED"
+      end
+  | _ => str "MALFORMED"
+  end.
+
+Definition all_bytes : list byte :=
+  map (fun n => n2b (N.of_nat n)) (seq 0 256).
